@@ -27,7 +27,7 @@ class Ctx:
         self.defined = 0  # types [0, defined) are complete
 
     def byvalue(self):
-        return [self.names[i] for i in range(self.defined) if self.kinds[i] != "opaque"]
+        return [self.names[i] for i in range(self.defined) if self.kinds[i] not in ("opaque", "private")]
 
     def pointees(self):
         return [self.names[i] for i in range(len(self.kinds)) if self.kinds[i] in ("struct", "union", "opaque", "class")] \
@@ -136,8 +136,10 @@ def enumerators(draw, ename):
     es = []
     big = draw(st.integers(0, 11)) == 0
     for i in range(n):
-        c = draw(st.integers(0, 5))
-        if c <= 2:
+        c = draw(st.integers(0, 6))
+        if c == 6 and es and es[-1][1] is not None:
+            v = es[-1][1]   # duplicate value (two enumerators with the same value)
+        elif c <= 2 or c == 6:
             v = None
         elif c <= 4:
             v = draw(st.integers(-1000, 100000))
@@ -152,7 +154,7 @@ KIND_W = [("struct", 50), ("union", 10), ("enum", 15), ("typedef", 20), ("opaque
 
 @st.composite
 def library(draw, lang="c", min_types=1, max_types=8, min_funcs=1, max_funcs=6, max_vars=3, max_tus=3,
-            symfeatures=False, statics=True, kind_w=None):
+            symfeatures=False, statics=True, kind_w=None, tu_private=0):
     if lang == "any":
         lang = _pick(draw, ["c", "c", "cxx"])
     cxx = lang == "cxx"
@@ -206,9 +208,42 @@ def library(draw, lang="c", min_types=1, max_types=8, min_funcs=1, max_funcs=6, 
             else:
                 m["statics"].append({"name": "svar%d" % i, "type": texpr(draw, cx, 0, allow_array=True),
                                      "tu": draw(st.integers(0, ntu - 1)), "static": True})
+    if tu_private and lang == "c" and ntu >= 2 and draw(st.integers(0, 99)) < tu_private:
+        add_tu_private_types(draw, m, ntu, cx)
     if symfeatures:
         add_symbol_features(draw, m)
     return m
+
+
+def add_tu_private_types(draw, m, ntu, cx):
+    """Same C-level tag, different definitions in different translation units (legal C), each used by that TU's own
+    exported function through a pointer / const pointer / by value / array."""
+    ngroups = draw(st.integers(1, 2))
+    for g in range(ngroups):
+        kind = _weighted(draw, [("struct", 6), ("enum", 2), ("union", 1)])
+        cname = "pv%d" % g
+        tus = sorted(set([0, 1] + [draw(st.integers(0, ntu - 1)) for _ in range(draw(st.integers(0, 2)))]))
+        same_size_bias = draw(st.booleans())
+        for k in tus:
+            mname = "%s_tu%d" % (cname, k)
+            if kind == "enum":
+                t = {"kind": "enum", "name": mname, "cname": cname, "where": "tu%d" % k,
+                     "enumerators": [["%s_T%d_E%d" % (cname.upper(), k, i), v] for i, (_, v) in
+                                     enumerate(enumerators(draw, cname))]}
+            else:
+                ms = members(draw, cx, "", 1, 4, 0, True, kind == "union")
+                if draw(st.integers(0, 2)) == 0:
+                    ms.append({"name": "next", "type": ["p", ["n", mname]], "bits": None})
+                t = {"kind": kind, "name": mname, "cname": cname, "where": "tu%d" % k, "members": ms}
+            m["types"].append(t)
+            how = draw(st.integers(0, 4))
+            base = ["n", mname]
+            ty = [["p", base], ["p", ["c", base]], base, ["p", ["p", base]], ["c", ["p", base]]][how]
+            f = {"name": "%sfn_tu%d" % (cname, k), "ret": ["b", "int"], "params": [{"name": "p0", "type": ty}],
+                 "variadic": False, "tu": k, "body": draw(st.integers(0, 5))}
+            if draw(st.integers(0, 3)) == 0:
+                f["ret"] = ["p", base]
+            m["funcs"].append(f)
 
 
 def add_symbol_features(draw, m):
